@@ -23,8 +23,8 @@ META = {
             "(live proxy answering a fake Paper backend for every 1.13+ protocol x boundary requested versions x "
             "malformed request data, from distinct source IPs, UUIDs and hostile property lists incl. profiles that make the "
             "payload exceed 2, 4 and 8 KiB; and "
-            "CreateForwardingData for fake players with V1/V2 keys) are verified with crypto/hmac (and must fail "
-            "under another secret), must equal byte for byte the layout Payload() built in TLA+ on Wire.tla, and "
+            "CreateForwardingData for fake players with V1/V2 keys) are verified with crypto/hmac under the secret exactly as configured (secrets with leading / "
+            "trailing spaces, tabs, line breaks, all-space; and must fail under another secret), must equal byte for byte the layout Payload() built in TLA+ on Wire.tla, and "
             "their Paper-style parse must give back exactly ip, uuid, name, properties and key data. A backend "
             "sending login success without requesting forwarding (also after a proxy plugin answered its login plugin request "
             "on another channel) must not become the player's server.",
